@@ -2432,6 +2432,15 @@ selectDecoder(dRess_t ress,
 }
 
 
+/* --rm : the source is removed only once decoding succeeded and the output is safely written */
+static void LZ4IO_removeDecodedSrcFile(const char* input_filename, const LZ4IO_prefs_t* const prefs)
+{
+    if (prefs->removeSrcFile) {
+        if (remove(input_filename))
+            END_PROCESS(45, "Remove error : %s: %s", input_filename, strerror(errno));
+    }
+}
+
 static int
 LZ4IO_decompressSrcFile(unsigned long long* outGenSize,
                         dRess_t ress,
@@ -2462,10 +2471,6 @@ LZ4IO_decompressSrcFile(unsigned long long* outGenSize,
      * before success is reported and before the source can be removed */
     if (result==0 && fflush(foutput))
         END_PROCESS(56, "Write error : cannot write decoded data : %s", strerror(errno));
-    if (prefs->removeSrcFile && result==0) {  /* --rm : only after successful decoding */
-        if (remove(input_filename))
-            END_PROCESS(45, "Remove error : %s: %s", input_filename, strerror(errno));
-    }
 
     /* Final Status */
     DISPLAYLEVEL(2, "\r%79s\r", "");
@@ -2499,6 +2504,7 @@ LZ4IO_decompressDstFile(unsigned long long* outGenSize,
 
     if (fclose(foutput))
         END_PROCESS(57, "Write error : cannot close %s : %s", output_filename, strerror(errno));
+    if (result==0) LZ4IO_removeDecodedSrcFile(input_filename, prefs);
 
     /* Copy owner, file permissions and modification time */
     if ( stat_result != 0
@@ -2558,7 +2564,10 @@ int LZ4IO_decompressMultipleFilenames(
         size_t const ifnSize = strlen(inFileNamesTable[i]);
         const char* const suffixPtr = inFileNamesTable[i] + ifnSize - suffixSize;
         if (LZ4IO_isStdout(suffix) || LZ4IO_isDevNull(suffix)) {
-            missingFiles += LZ4IO_decompressSrcFile(&processed, ress, inFileNamesTable[i], suffix, prefs);
+            {   int const r = LZ4IO_decompressSrcFile(&processed, ress, inFileNamesTable[i], suffix, prefs);
+                if (r==0) LZ4IO_removeDecodedSrcFile(inFileNamesTable[i], prefs);
+                missingFiles += r;
+            }
             totalProcessed += processed;
             continue;
         }
